@@ -294,6 +294,15 @@ func init() {
 				Budget: sim.Budget{Cuts: 3, Crashes: 1, Restarts: 1, Steps: 36, Reorders: -1, MsgSteps: 2, Deviations: d}})
 		}
 	}
+	// C16 seed S-removed: n2 was cut off, then removed from the cluster (committed
+	// by n0 and n1) without ever learning of it; it has been campaigning for 10
+	// intervals with the old configuration.
+	removedNode := append(append([]sim.Event{}, seedLeader3...), sim.MustParse("isolate n2", "remove n0 a=2", "adv", "adv", "adv", "adv", "adv", "adv", "adv", "adv", "adv", "adv", "adv", "adv", "adv", "adv")...)
+	for d := 0; d <= 4; d++ {
+		reg(&explore.Suite{Name: fmt.Sprintf("removed3-d%d", d), Cfg: sim.Config{Voters: 3, Timed: true, Asym: true}, Seed: removedNode,
+			Monitors: stickyMonitors(0, []int{0, 1}), Filter: onlyNodes(2),
+			Budget: sim.Budget{Cuts: 2, Crashes: 1, Restarts: 1, Steps: 16, Reorders: -1, MsgSteps: 3, Deviations: d}})
+	}
 	// C16 seed S-contested: n0 and n2 both campaigned for term 1; n1 voted for
 	// n0, which leads; n2 lost as a candidate of the same term and follows n0.
 	// n2 has then been cut off for 10 intervals.
